@@ -1,10 +1,17 @@
 import Garr.Retry.Model
 import Garr.Validate.Model
+import Garr.Num.F64Order
 /-!
 # C20 — constructors accept exactly their documented parameter domain
 
 `F64.lt`/`F64.le` are the IEEE comparisons of the exact binary64 model (false whenever an operand is NaN).
 The domain predicates below are explicit about NaN.
+
+The first group of theorems phrases the float part of each domain with the model's own `F64.lt`/`F64.le`.
+The second group (suffix `_sem`, section "Documented domains") restates them with the *mathematical*
+order of the represented extended reals (`Garr/Num/F64Order.lean`): `F64.ext x` is `value x · 2^1074`
+in `ℤ ∪ {-∞,+∞}` (an order embedding, independent of how `lt`/`le` are computed), and
+`EInt.ofInt n` is the integer `n` on that scale (`F64.ext F64.one = EInt.ofInt 1`, etc.).
 -/
 namespace Garr.Props.C20
 open Garr Garr.Retry Garr.Validate
@@ -98,5 +105,187 @@ theorem config_rejects_nan (c : Config) (h : c.thr = .nan) : valid c = false := 
 example : valid { thr := .fin false (2^52) (-53), minReq := 10, trial := 3, openW := 10, window := 20, interval := 1 } = true := by
   decide +kernel
 example : (mkExpo 200 10000 (.fin false (2^52) (-51))).isSome = true := by decide +kernel
+
+/-! ## Documented domains, with the mathematical order (`_sem`)
+
+Inputs are canonical (`F64.IsF64`: what decoding any 64 raw bits gives).  Reading guide:
+`EInt.ofInt 1 < F64.ext mu` is "value(mu) > 1", `F64.ext x ≤ EInt.ofInt 1` is "value(x) ≤ 1", ...;
+`x ≠ .nan` is "x is a number". -/
+section Sem
+open Garr.F64 (ext EInt IsF64)
+
+/-- exponential: accepted ⇔ the multiplier is a number with value > 1 (this includes `+∞`, which the Go
+constructor `!(multiplier > 1)` also accepts), initial ≥ 0, initial ≤ max -/
+theorem expo_accept_iff_sem (i m : Int) (mu : F64) (hmu : IsF64 mu) :
+    (mkExpo i m mu).isSome ↔ (mu ≠ .nan ∧ EInt.ofInt 1 < ext mu ∧ 0 ≤ i ∧ i ≤ m) := by
+  rw [expo_accept_iff]
+  by_cases n : mu = .nan
+  · simp [n]
+  · rw [F64.lt_iff_ext F64.isF64_one hmu (by decide) n, F64.ext_one_eq_ofInt]
+
+/-- the same, with the constant written as the model's `1.0` -/
+theorem expo_accept_iff_sem' (i m : Int) (mu : F64) (hmu : IsF64 mu) :
+    (mkExpo i m mu).isSome ↔ (mu ≠ .nan ∧ ext F64.one < ext mu ∧ 0 ≤ i ∧ i ≤ m) := by
+  rw [expo_accept_iff_sem i m mu hmu, F64.ext_one_eq_ofInt]
+
+/-- jitter: accepted ⇔ delegate present, both rates are numbers, -1 ≤ min ≤ 1, -1 ≤ max ≤ 1, min ≤ max -/
+theorem jitter_accept_iff_sem (b : Option Backoff) (lo hi : F64) (hlo : IsF64 lo) (hhi : IsF64 hi) :
+    (mkJitter b lo hi).isSome ↔
+      (b.isSome ∧ lo ≠ .nan ∧ hi ≠ .nan ∧
+       EInt.ofInt (-1) ≤ ext lo ∧ ext lo ≤ EInt.ofInt 1 ∧
+       EInt.ofInt (-1) ≤ ext hi ∧ ext hi ≤ EInt.ofInt 1 ∧ ext lo ≤ ext hi) := by
+  rw [jitter_accept_iff]
+  by_cases n1 : lo = .nan
+  · simp [n1]
+  by_cases n2 : hi = .nan
+  · simp [n2]
+  have nm1 : F64.neg F64.one ≠ .nan := by decide
+  have n1' : F64.one ≠ .nan := by decide
+  rw [F64.le_iff_ext F64.isF64_neg_one hlo nm1 n1, F64.le_iff_ext hlo F64.isF64_one n1 n1',
+    F64.le_iff_ext F64.isF64_neg_one hhi nm1 n2, F64.le_iff_ext hhi F64.isF64_one n2 n1',
+    F64.lt_eq_false_iff hhi hlo n2 n1, F64.ext_neg_one_eq_ofInt, F64.ext_one_eq_ofInt]
+
+/-- breaker configuration: accepted ⇔ the threshold is a number with 0 < value ≤ 1, every duration
+positive, window longer than the update interval -/
+theorem config_accept_iff_sem (c : Config) (hthr : IsF64 c.thr) :
+    valid c = true ↔ (c.thr ≠ .nan ∧ EInt.ofInt 0 < ext c.thr ∧ ext c.thr ≤ EInt.ofInt 1 ∧
+      0 < c.trial ∧ 0 < c.openW ∧ 0 < c.window ∧ 0 < c.interval ∧ c.interval < c.window) := by
+  rw [config_accept_iff]
+  by_cases n : c.thr = .nan
+  · simp [n]
+  · rw [F64.lt_iff_ext (F64.isF64_zero false) hthr (by decide) n,
+      F64.le_iff_ext hthr F64.isF64_one n (by decide), F64.ext_zero_eq_ofInt, F64.ext_one_eq_ofInt]
+
+/-! ### Corollaries at the boundary of each domain -/
+
+/-- `±∞` threshold is rejected -/
+theorem config_rejects_inf (c : Config) (s : Bool) (h : c.thr = .inf s) : valid c = false := by
+  cases hv : valid c
+  · rfl
+  · have := (config_accept_iff_sem c (by rw [h]; trivial)).1 hv
+    rw [h] at this
+    cases s
+    · exact absurd this.2.2.1 (by simp [ext])
+    · exact absurd this.2.1 (by simp [ext])
+
+/-- `+0` and `-0` thresholds are rejected -/
+theorem config_rejects_zero (c : Config) (s : Bool) (h : c.thr = F64.zero s) : valid c = false := by
+  cases hv : valid c
+  · rfl
+  · have := (config_accept_iff_sem c (by rw [h]; exact F64.isF64_zero s)).1 hv
+    rw [h, F64.ext_zero_eq_ofInt] at this
+    exact absurd this.2.1 (EInt.lt_irrefl _)
+
+/-- a negative threshold (any negative finite number, `-0` included) is rejected -/
+theorem config_rejects_negative (c : Config) (m : Nat) (e : Int) (h : c.thr = .fin true m e)
+    (hc : F64.Canon m e) : valid c = false := by
+  cases hv : valid c
+  · rfl
+  · have := (config_accept_iff_sem c (by rw [h]; exact hc)).1 hv
+    rw [h] at this
+    have h0 := this.2.1
+    simp only [ext, EInt.ofInt, F64.num, EInt.fin_lt_fin, Int.zero_mul, if_true] at h0
+    have hp : (0 : Int) < 2 ^ (e + 1074).toNat := Int.pow_pos (by decide)
+    have : -(m : Int) * 2 ^ (e + 1074).toNat ≤ 0 :=
+      Int.mul_nonpos_of_nonpos_of_nonneg (by omega) (Int.le_of_lt hp)
+    omega
+
+/-- the smallest positive subnormal `2^-1074` is an accepted threshold (given the integer conditions) -/
+theorem config_accepts_min_subnormal (c : Config) (h : c.thr = .fin false 1 (-1074)) :
+    valid c = true ↔
+      (0 < c.trial ∧ 0 < c.openW ∧ 0 < c.window ∧ 0 < c.interval ∧ c.interval < c.window) := by
+  rw [config_accept_iff_sem c (by rw [h]; decide), h]
+  have h1 : EInt.ofInt 0 < ext (.fin false 1 (-1074)) := by decide +kernel
+  have h2 : ext (.fin false 1 (-1074)) ≤ EInt.ofInt 1 := by decide +kernel
+  simp [h1, h2]
+
+/-- threshold exactly `1.0` is accepted (given the integer conditions); `nextUp(1.0)` is rejected -/
+theorem config_accepts_one (c : Config) (h : c.thr = F64.one) :
+    valid c = true ↔
+      (0 < c.trial ∧ 0 < c.openW ∧ 0 < c.window ∧ 0 < c.interval ∧ c.interval < c.window) := by
+  rw [config_accept_iff_sem c (by rw [h]; exact F64.isF64_one), h, F64.ext_one_eq_ofInt]
+  have h1 : EInt.ofInt 0 < EInt.ofInt 1 := (EInt.ofInt_lt_ofInt 0 1).2 (by decide)
+  simp [h1, EInt.le_refl, F64.one]
+
+theorem config_rejects_above_one (c : Config) (h : c.thr = .fin false (2^52 + 1) (-52)) :
+    valid c = false := by
+  cases hv : valid c
+  · rfl
+  · have := (config_accept_iff_sem c (by rw [h]; decide)).1 hv
+    rw [h] at this
+    exact absurd this.2.2.1 (by decide +kernel)
+
+/-- multiplier exactly `1.0` is rejected -/
+theorem expo_rejects_one (i m : Int) : mkExpo i m F64.one = none := by
+  cases hv : mkExpo i m F64.one
+  · rfl
+  · have h : (mkExpo i m F64.one).isSome := by rw [hv]; rfl
+    have := (expo_accept_iff_sem i m F64.one F64.isF64_one).1 h
+    rw [F64.ext_one_eq_ofInt] at this
+    exact absurd this.2.1 (EInt.lt_irrefl _)
+
+/-- multiplier `nextUp(1.0) = 1 + 2^-52` is accepted (given the integer conditions) -/
+theorem expo_accepts_next_up_one (i m : Int) :
+    (mkExpo i m (.fin false (2^52 + 1) (-52))).isSome ↔ (0 ≤ i ∧ i ≤ m) := by
+  rw [expo_accept_iff_sem i m _ (by decide)]
+  have h1 : EInt.ofInt 1 < ext (.fin false (2^52 + 1) (-52)) := by decide +kernel
+  simp [h1]
+
+/-- multiplier `+∞` is accepted (as by the Go code: `+Inf > 1`), `-∞` is rejected -/
+theorem expo_accepts_pos_inf (i m : Int) : (mkExpo i m (.inf false)).isSome ↔ (0 ≤ i ∧ i ≤ m) := by
+  rw [expo_accept_iff_sem i m (.inf false) trivial]
+  simp [ext]
+
+theorem expo_rejects_neg_inf (i m : Int) : mkExpo i m (.inf true) = none := by
+  cases hv : mkExpo i m (.inf true)
+  · rfl
+  · have h : (mkExpo i m (.inf true)).isSome := by rw [hv]; rfl
+    exact absurd ((expo_accept_iff_sem i m (.inf true) trivial).1 h).2.1 (by simp [ext])
+
+/-- an infinite jitter rate is rejected -/
+theorem jitter_rejects_inf (b : Option Backoff) (x : F64) (hx : IsF64 x) (s : Bool) :
+    mkJitter b (.inf s) x = none ∧ mkJitter b x (.inf s) = none := by
+  constructor
+  · cases hv : mkJitter b (.inf s) x
+    · rfl
+    · have h : (mkJitter b (.inf s) x).isSome := by rw [hv]; rfl
+      have := (jitter_accept_iff_sem b (.inf s) x trivial hx).1 h
+      cases s
+      · exact absurd this.2.2.2.2.1 (by simp [ext])
+      · exact absurd this.2.2.2.1 (by simp [ext])
+  · cases hv : mkJitter b x (.inf s)
+    · rfl
+    · have h : (mkJitter b x (.inf s)).isSome := by rw [hv]; rfl
+      have := (jitter_accept_iff_sem b x (.inf s) hx trivial).1 h
+      cases s
+      · exact absurd this.2.2.2.2.2.2.1 (by simp [ext])
+      · exact absurd this.2.2.2.2.2.1 (by simp [ext])
+
+-- concrete instances, evaluated by the kernel on the executable model
+example : valid { thr := .nan, minReq := 10, trial := 3, openW := 10, window := 20, interval := 1 } = false := by
+  decide +kernel
+example : valid { thr := .inf false, minReq := 10, trial := 3, openW := 10, window := 20, interval := 1 } = false := by
+  decide +kernel
+example : valid { thr := .inf true, minReq := 10, trial := 3, openW := 10, window := 20, interval := 1 } = false := by
+  decide +kernel
+example : valid { thr := F64.zero false, minReq := 10, trial := 3, openW := 10, window := 20, interval := 1 } = false := by
+  decide +kernel
+example : valid { thr := F64.zero true, minReq := 10, trial := 3, openW := 10, window := 20, interval := 1 } = false := by
+  decide +kernel
+example : valid { thr := .fin false 1 (-1074), minReq := 10, trial := 3, openW := 10, window := 20, interval := 1 } = true := by
+  decide +kernel
+example : valid { thr := F64.one, minReq := 10, trial := 3, openW := 10, window := 20, interval := 1 } = true := by
+  decide +kernel
+example : valid { thr := .fin false (2^52 + 1) (-52), minReq := 10, trial := 3, openW := 10, window := 20, interval := 1 } = false := by
+  decide +kernel
+example : mkExpo 200 10000 F64.one = none := by decide +kernel
+example : (mkExpo 200 10000 (.fin false (2^52 + 1) (-52))).isSome = true := by decide +kernel
+example : (mkExpo 200 10000 (.inf false)).isSome = true := by decide +kernel
+-- jitter rates -1 and 1 (the closed ends) are accepted, nextUp(1) is not
+example : (mkJitter (some (.fixed 5)) (F64.neg F64.one) F64.one).isSome = true := by decide +kernel
+example : mkJitter (some (.fixed 5)) (F64.neg F64.one) (.fin false (2^52 + 1) (-52)) = none := by decide +kernel
+example : mkJitter (some (.fixed 5)) F64.one (F64.neg F64.one) = none := by decide +kernel
+
+end Sem
 
 end Garr.Props.C20
